@@ -343,11 +343,13 @@ def chunk_worker(args):
         # T3
         why = t3_verdict(kind, sb, a, b, ip["D"], ip["R"], W)
         if why is not None:
+            # a failure belongs to a finding class iff the case satisfies the class's classifier AND the model
+            # (which has that deviation built in) predicts the real output exactly; anything else is unmodelled
             cls = [c for c, (f, _) in CLASSES.items() if f(kind, sb, a, b)]
-            c = cls[0] if cls else "unclassified"
-            if not (c in suppress and agree):
-                c = c if c not in suppress else c + " (model does not predict the output)"
-                c = "!" + c
+            if cls and agree:
+                c = cls[0] if cls[0] in suppress else "!" + cls[0]
+            else:
+                c = "!unmodelled"
             res["t3n"][c] = res["t3n"].get(c, 0) + 1
             cur = res["t3"].get(c)
             rank = (len(line), kind == "S" and a == b)       # shortest; a non-empty span before an empty one
@@ -522,7 +524,7 @@ def check(ctx):
                 what, c, n, v["case"]))
             continue
         cname = c[1:]
-        what = CLASSES[cname][1] if cname in CLASSES else "output does not meet the statement"
+        what = CLASSES[cname][1] if cname in CLASSES else "output does not meet the statement: " + v["why"]
         rep = describe(v["case"])
         rep.update({"class": cname, "cases_in_class": n, "why": v["why"], "impl": decode_answer(v["impl"]),
                     "model": decode_answer(v["model"])})
@@ -563,6 +565,27 @@ def check(ctx):
         "only for emoji / variation-selector sequences, which are outside the explored inputs)",
         "the line iterator of the model searches LF on bytes (equivalent to the char_indices search on valid UTF-8)",
     ])
+
+
+def replay_case(rep):
+    """re-run a recorded violation (dict with key 'harness_case_line') on the current working tree of REPO:
+    the real formatter against the property's oracle (T3).  Returns (still_fails, impl_answer, verdict)."""
+    class _C:
+        def oblige(self, *a):
+            pass
+    exe = build_harness(_C())
+    if exe is None:
+        return True, "harness does not build", ""
+    line = rep["harness_case_line"]
+    kind, sb, a, b = parse_case(line)
+    rc, impl, _ = run_lines([exe], [line])
+    if rc != 0 or len(impl) != 1:
+        return True, "harness failed", ""
+    ip = dict(x.split("=", 1) for x in impl[0].split(" ") if "=" in x)
+    chars = set(sb.decode("utf8")) | set("0123456789 |^v.")
+    W = width_table(exe, set(vis("".join(chars))) | chars)
+    why = t3_verdict(kind, sb, a, b, ip["D"], ip["R"], W)
+    return why is not None, decode_answer(impl[0]), why or "meets the statement"
 
 
 class CountSet:
